@@ -2112,6 +2112,9 @@ class TensorDictFuture:
     def result(self):
         """Wait and returns the resulting tensordict."""
         concurrent.futures.wait(self.futures)
+        for future in self.futures:
+            # re-raise the exceptions encountered in the threads, if any
+            future.result()
         if getattr(self.resulting_td, "is_locked", False):
             # memmap results are flagged as locked by ``_memmap_``
             _lock_after_memmap(self.resulting_td)
